@@ -292,13 +292,20 @@ def _run(eng, world, contracts, qual, res, timeout_ms, concretise, keep_smt, onl
         raise Unsupported('no feasible path')
     # ---------------------------------------------------------------- discharge
     covered = False
+    deadline = time.time() + float(_os.environ.get('VERIF_FN_BUDGET', '300' if timeout_ms <= 10000 else '1500'))
+    nslow = 0
     for ob in eng.obls:
         if ob.kind == 'cover':
             t1 = time.time()
             status, note = cover(ob.hyps, timeout_ms)
             res.obligations.append(ObResult(ob.name, ob.kind, status, time.time() - t1, reason=note))
             continue
-        r, dt, model, solver = solve(ob.hyps, ob.goal, timeout_ms)
+        if time.time() > deadline:
+            res.obligations.append(ObResult(ob.name, ob.kind, 'unknown', 0.0, reason='function budget exhausted'))
+            continue
+        r, dt, model, solver = solve(ob.hyps, ob.goal, timeout_ms if nslow < 12 else min(timeout_ms, 2000))
+        if r == z3.unknown:
+            nslow += 1
         if _PROGRESS:
             print('  [%s] %.2fs %s' % (r, dt, ob.name), flush=True)
             if r == z3.unknown and _os.environ.get('VERIF_EXPLAIN') == '1':
